@@ -245,6 +245,19 @@ func c13Apply(base *c13Base, m c13Mut) ([]byte, bool) {
 			lines = append(lines[:m.Arg+1:m.Arg+1], append([]string{lines[m.Arg]}, lines[m.Arg+1:]...)...)
 		}
 		return []byte(strings.Join(lines, "\n")), true
+	case "value":
+		// the Arg-th value site of the playlist (an attribute value, or the value of a tag without attribute list)
+		// replaced by the Arg2-th replacement of its lexical class
+		sites := c13ValueSites(string(b))
+		if m.Arg >= len(sites) {
+			return nil, false
+		}
+		st := sites[m.Arg]
+		repl := c13ValueRepl(st.quoted)
+		if m.Arg2 >= len(repl) {
+			return nil, false
+		}
+		return []byte(string(b[:st.start]) + repl[m.Arg2] + string(b[st.end:])), true
 	case "strip-offset":
 		// the k-th EXT-X-BYTERANGE line (all of them for k < 0) loses its "@offset"
 		lines := strings.Split(string(b), "\n")
@@ -263,6 +276,66 @@ func c13Apply(base *c13Base, m c13Mut) ([]byte, bool) {
 		return []byte(strings.Join(lines, "\n")), hit
 	}
 	return nil, false
+}
+
+type c13Site struct {
+	start, end int
+	quoted     bool
+}
+
+// c13ValueSites lists the value sites of a playlist text: every attribute value of every tag with an attribute list,
+// and the whole value of every other tag that has one.
+func c13ValueSites(text string) []c13Site {
+	var out []c13Site
+	off := 0
+	for _, l := range strings.SplitAfter(text, "\n") {
+		line := strings.TrimRight(l, "\r\n")
+		if colon := strings.IndexByte(line, ':'); strings.HasPrefix(line, "#EXT") && colon > 0 {
+			val := line[colon+1:]
+			if !strings.Contains(val, "=") {
+				out = append(out, c13Site{start: off + colon + 1, end: off + len(line)})
+			} else {
+				// attribute list: NAME=value(,NAME=value)*, commas inside quotes do not separate
+				i := 0
+				for i < len(val) {
+					eq := strings.IndexByte(val[i:], '=')
+					if eq < 0 {
+						break
+					}
+					vs := i + eq + 1
+					ve := vs
+					quoted := vs < len(val) && val[vs] == '"'
+					if quoted {
+						ve = vs + 1
+						for ve < len(val) && val[ve] != '"' {
+							ve++
+						}
+						if ve < len(val) {
+							ve++
+						}
+					} else {
+						for ve < len(val) && val[ve] != ',' {
+							ve++
+						}
+					}
+					out = append(out, c13Site{start: off + colon + 1 + vs, end: off + colon + 1 + ve, quoted: quoted})
+					i = ve
+					if i < len(val) && val[i] == ',' {
+						i++
+					}
+				}
+			}
+		}
+		off += len(l)
+	}
+	return out
+}
+
+func c13ValueRepl(quoted bool) []string {
+	if quoted {
+		return []string{`""`, `","`, `"x,"`, `",x"`, `"a,,b"`, `" "`, `" avc1.42c028"`, `"`, `x`}
+	}
+	return []string{"", "0", "-1", "1", "99999999999999999999", "1.5", "1e9", "NaN", "x", "0x10", "YES", `"1"`}
 }
 
 func (b *c13Base) names() []string {
@@ -457,6 +530,11 @@ func c13Mutations(base *c13Base, tier string) []c13Mut {
 			}
 			for i := range c13Texts() {
 				out = append(out, c13Mut{Base: base.name, Res: res, Kind: "text", Arg: i, Desc: fmt.Sprintf("corpus text %d", i)})
+			}
+			for si, st := range c13ValueSites(string(body)) {
+				for ri, rv := range c13ValueRepl(st.quoted) {
+					out = append(out, c13Mut{Base: base.name, Res: res, Kind: "value", Arg: si, Arg2: ri, Desc: fmt.Sprintf("value %q at byte %d replaced by %q", string(body[st.start:st.end]), st.start, rv)})
+				}
 			}
 			if n := strings.Count(string(body), "#EXT-X-BYTERANGE:"); n > 0 {
 				for k := -1; k < n; k++ {
